@@ -14,7 +14,7 @@
 //                                      `!! cut-dependent ...` (oracle on the implementation alone)
 //
 //   kinds: vec_int vec_str deque_int list_int fwdlist_int set_int multiset_int stack_int queue_int prioq_int
-//          carray_int:N stdarray_int:N bitset:N map_int_str tuple_int_str_int
+//          carray_int:N stdarray_int:N carray_str:N stdarray_str:N bitset:N map_int_str tuple_int_str_int
 //   check specs: lower:<n> upper:<n> range:<a>:<b> minlen:<n> maxlen:<n>
 //   content: container order (adapters are popped from a copy), arrays print all N slots, bitsets the
 //            positions that are set, maps k:v, an argv word '' is the empty string.
@@ -166,6 +166,16 @@ template <size_t N> std::string runStdArray(const Config& cfg, const std::vector
    for (size_t i = 0; i < N; ++i) arr[i] = i < cfg.init.size() ? std::stoi(cfg.init[i]) : 0;
    return runSeq(cfg, words, arr, [](std::array<int, N>& a) { return joinInts(a.begin(), a.end()); });
 }
+template <size_t N> std::string runCArrayStr(const Config& cfg, const std::vector<std::string>* words) {
+   std::string arr[N];
+   for (size_t i = 0; i < N; ++i) arr[i] = i < cfg.init.size() ? cfg.init[i] : std::string();
+   return runSeq(cfg, words, arr, [](std::string (&a)[N]) { return joinStrs(a, a + N); });
+}
+template <size_t N> std::string runStdArrayStr(const Config& cfg, const std::vector<std::string>* words) {
+   std::array<std::string, N> arr;
+   for (size_t i = 0; i < N; ++i) arr[i] = i < cfg.init.size() ? cfg.init[i] : std::string();
+   return runSeq(cfg, words, arr, [](std::array<std::string, N>& a) { return joinStrs(a.begin(), a.end()); });
+}
 template <size_t N> std::string runBitset(const Config& cfg, const std::vector<std::string>* words) {
    std::bitset<N> bs;
    for (auto& s : cfg.init) bs.set(std::stoul(s));
@@ -185,6 +195,8 @@ template <size_t N> std::string runBitset(const Config& cfg, const std::vector<s
 
 std::string runArr(const Config& cfg, const std::vector<std::string>* words) { SIZES(runCArray) }
 std::string runSArr(const Config& cfg, const std::vector<std::string>* words) { SIZES(runStdArray) }
+std::string runArrStr(const Config& cfg, const std::vector<std::string>* words) { SIZES(runCArrayStr) }
+std::string runSArrStr(const Config& cfg, const std::vector<std::string>* words) { SIZES(runStdArrayStr) }
 std::string runBits(const Config& cfg, const std::vector<std::string>* words) { SIZES(runBitset) }
 
 /// words == nullptr: only build the configuration
@@ -236,6 +248,8 @@ std::string runOne(const Config& cfg, const std::vector<std::string>* words) {
    }
    if (k == "carray_int") return runArr(cfg, words);
    if (k == "stdarray_int") return runSArr(cfg, words);
+   if (k == "carray_str") return runArrStr(cfg, words);
+   if (k == "stdarray_str") return runSArrStr(cfg, words);
    if (k == "bitset") return runBits(cfg, words);
    if (k == "map_int_str") {   // init elements are k:v
       std::map<int, std::string> d;
